@@ -31,6 +31,7 @@ type StructAnn struct {
 	locks    map[string]int    // lock field -> level
 	conds    map[string]string // cond field -> lock path
 	invs     []specLine
+	minvs    []specLine // method_invariant: assumed on entry and asserted at every return of every method of the type
 	elemInv  map[string][]specLine // channel field -> invariant over `elem`
 	poolInv  map[string][]specLine // *sync.Pool field -> invariant over `elem` (an interface value) and the struct's fields
 	openChan map[string]bool       // channel fields that are never closed
@@ -375,6 +376,8 @@ func (a *Annotations) structClause(cs *StructAnn, word, rest string, sl specLine
 		}
 	case "invariant":
 		cs.invs = append(cs.invs, sl)
+	case "method_invariant":
+		cs.minvs = append(cs.minvs, sl)
 	case "never_closed":
 		for _, f := range strings.Fields(rest) {
 			cs.openChan[f] = true
